@@ -39,6 +39,26 @@ func runC15(c *fw.Ctx) {
 			}
 		}
 	}
+	// ---- groups of same-rank shapes that collide under ad-hoc cache keys, back-propagated one after the other in one case ----
+	for gi, group := range CollidingShapes {
+		for _, name := range []string{"Relu", "Sigmoid", "Tanh", "LeakyRelu(2)", "Softmax(0)"} {
+			gi, group, name := gi, group, name
+			c.Case(func(k *fw.K) {
+				k.Key("colliding/%d/%s", gi, name)
+				k.Count("colliding_shape_group_cases", 1)
+				for _, shape := range group {
+					for _, sp := range actSpecs(len(shape)) {
+						if sp.name == name {
+							c15Leaf(k, sp, shape, 0)
+						}
+					}
+					if k.Failed() {
+						return
+					}
+				}
+			})
+		}
+	}
 	// ---- (ii) interior inputs ----
 	for i := 0; i < c.Pick(6000, 150000); i++ {
 		c.Case(func(k *fw.K) { c15Upstream(k) })
